@@ -358,7 +358,9 @@ register("C15", {
             "framings, HTTP/2 frames of arbitrary type / flags / length / stream id with HPACK and "
             ":status junk, truncated frames, each ending in EOF or reset; (c) every backend "
             "exception at every network operation index (asyncio and threads); (d) invalid "
-            "requests from the caller; oracle = class of every exception reaching the caller "
+            "requests from the caller; (e) proxy replies; at L2 the native exceptions of anyio, trio "
+            "and the socket / ssl modules (a failed handshake is an SSLError, an EOF or a reset); "
+            "every other HTTP/2 corruption base multiplexes 2-3 streams; oracle = class of every exception reaching the caller "
             "(request call, body reads, close) is a documented httpcore exception, coarse cause "
             "match, termination; all runs but the dry runs are non-trivial",
     "assumptions": ["the L2 families run the real AnyIOBackend and TrioBackend (through "
